@@ -4,7 +4,7 @@
    (wf_cfg: shard WAL on, member-local clamp of ClearEntryLog, propose ids never reused); Refuted.v shows what fails
    for today's variants. Not expressible here (partial claim): timing, timeouts, real network behaviour. *)
 From Coq Require Import List Arith NArith ZArith Bool Lia Permutation.
-From OG Require Import C05.Model C05.Proofs C05.Invariant C05.Theorems C05.Final.
+From OG Require Import C05.Model C05.Proofs C05.Invariant C05.Theorems C05.Final C05.Trunc C05.TruncProofs.
 Import ListNotations.
 
 Section C05.
@@ -182,3 +182,82 @@ Example snapshot_window_without_wal :
   | None => False
   end.
 Proof. vm_compute. repeat split. Qed.
+
+(* ---------------------------------------------------------------- the leader's truncation decision (Trunc.v)
+   The tolerance timer is state of the decision. T = clear-entryLog-tolerate-time, L = the entry-file layout, pre = the
+   decision rounds of one node since its start (any roles, any liveness, any Match values, any clock values), r = the
+   round that follows. *)
+
+(* every variant: a forced truncation (ClearEntryLog computed from the ACTIVE members only) ends a window of rounds
+   that began, more than T earlier, with a leader round that saw a member down, and in which no round stopped the
+   timer ([quiet] says what stops it in the given variant) *)
+Theorem forced_truncation_window : forall tc T L pre r idx,
+  snd (decide tc T L (tstate tc T L None pre) r) = DForce idx ->
+  exists p a w, pre ++ [r] = p ++ a :: w /\ starts a /\ (T < r_now r - r_now a)%Z /\ Forall (quiet tc) (a :: w).
+Proof. exact forced_window. Qed.
+Print Assumptions forced_truncation_window.
+
+(* repaired rule (timer cleared by a healthy round and by a round in which the node is not the leader): a forced
+   truncation happens only after a CONTINUOUS unhealthy period longer than the tolerate time - in every decision round of
+   a window longer than T this node was the leader and saw a member down *)
+Theorem forced_truncation_needs_continuous_outage : forall T L pre r idx,
+  snap_stays (pre ++ [r]) ->
+  snd (decide tcfg_repaired T L (tstate tcfg_repaired T L None pre) r) = DForce idx ->
+  exists p a w, pre ++ [r] = p ++ a :: w /\ (T < r_now r - r_now a)%Z /\
+                forall q, In q (a :: w) -> r_lead q = true /\ all_alive q = false.
+Proof. exact forced_continuous_outage. Qed.
+Print Assumptions forced_truncation_needs_continuous_outage.
+
+(* repaired rule: after any round (in any role) in which this node saw every member alive, nothing is forced until
+   more than the tolerate time later: a second outage never inherits the clock of a first one *)
+Theorem forced_truncation_not_within_tolerance_of_health : forall T L pre r idx q,
+  clock_mono (pre ++ [r]) -> snap_stays (pre ++ [r]) ->
+  snd (decide tcfg_repaired T L (tstate tcfg_repaired T L None pre) r) = DForce idx ->
+  In q pre -> all_alive q = true -> (T < r_now r - r_now q)%Z.
+Proof. exact forced_not_within_tolerance_of_health. Qed.
+Print Assumptions forced_truncation_not_within_tolerance_of_health.
+
+(* today's rule (partial: only health seen AS THE LEADER clears the timer; see
+   Refuted.stale_tolerance_timer_refuted for what is missing) *)
+Theorem leader_health_clears_tolerance_timer_partial : forall T L pre r idx q,
+  clock_mono (pre ++ [r]) ->
+  snd (decide tcfg_current T L (tstate tcfg_current T L None pre) r) = DForce idx ->
+  In q pre -> r_lead q = true -> r_snap q <> 0%N -> all_alive q = true -> (T < r_now r - r_now q)%Z.
+Proof. exact forced_not_within_tolerance_of_leader_health. Qed.
+Print Assumptions leader_health_clears_tolerance_timer_partial.
+
+(* the hypotheses are satisfiable and the forced branch is reachable: a member is down for seven hours (tolerate time
+   six hours = 360 minutes, rounds every 60 minutes); the forced index is the minimum over the ACTIVE members *)
+Example forced_after_long_outage :
+  let dn := [true; true; false] in
+  let rs := map (fun t => mkRound t true dn [100%N; 90%N; 7%N] 95%N) [0; 60; 120; 180; 240; 300; 360]%Z in
+  let r := mkRound 420 true dn [100%N; 90%N; 7%N] 95%N in
+  clock_mono (rs ++ [r]) /\ snap_stays (rs ++ [r]) /\
+  decisions tcfg_repaired 360 (mkLay 30000 1 100) None (rs ++ [r]) = [DNone; DNone; DNone; DNone; DNone; DNone; DNone; DForce 95%N].
+Proof.
+  cbn -[decisions]. split; [|split; [|vm_compute; reflexivity]].
+  - repeat split; intros x Hx; cbn in Hx; repeat (destruct Hx as [<-|Hx]; [cbn; lia|]); contradiction.
+  - repeat split; intros _ x Hx; cbn in Hx; repeat (destruct Hx as [<-|Hx]; [cbn; discriminate|]); contradiction.
+Qed.
+
+(* ---------------------------------------------------------------- entry-log lookup and append-vs-snapshot (Trunc.v) *)
+(* every entry of a contiguously written entry log is found by seekEntry, whichever file holds it - in particular the
+   first entry of a rotated file *)
+Theorem entry_lookup_finds_every_entry : forall E i, wf_files E ->
+  (log_first E <= i)%N -> (i <= log_last E)%N -> seek true E i = SFound i.
+Proof. exact seek_finds. Qed.
+Print Assumptions entry_lookup_finds_every_entry.
+
+(* a follower whose entry next-1 is in the leader's log is sent entries (MsgApp), never a snapshot *)
+Theorem follower_with_prev_in_log_gets_entries : forall E snp next, wf_files E ->
+  (log_first E <= next - 1)%N -> (next - 1 <= log_last E)%N -> send_append true E snp next = true.
+Proof. exact append_when_prev_in_log. Qed.
+Print Assumptions follower_with_prev_in_log_gets_entries.
+
+(* the hypotheses are satisfiable: a log of 60100 entries in three files of 30000 *)
+Example three_file_log_is_wf :
+  wf_files (layout_files 30000 1 60100) /\ log_first (layout_files 30000 1 60100) = 1%N /\
+  log_last (layout_files 30000 1 60100) = 60100%N /\
+  seek true (layout_files 30000 1 60100) 30001 = SFound 30001%N /\
+  send_append true (layout_files 30000 1 60100) 60050 30002 = true.
+Proof. vm_compute. repeat split; try reflexivity; try discriminate. Qed.
